@@ -46,6 +46,10 @@ POSITIONS = ['path', 'query', 'host', 'xfhost', 'xfproto']
 KINDS = ['404', '405', '400', '500', 'critical', '400path', '500data']
 
 
+# 'rawpath': PATH_INFO is the payload itself, WITHOUT a leading slash (a raw client / a server that does not normalise)
+RAW_KINDS = ['404', 'critical']
+
+
 def payloads(n):
     for m in range(1, n + 1):
         for t in itertools.product(ALPHA, repeat=m):
@@ -56,7 +60,7 @@ def shards(tier, seed):
     n = 3 if tier == 'quick' else 4
     out = []
     for kind in KINDS:
-        for pos in POSITIONS:
+        for pos in POSITIONS + (['rawpath'] if kind in RAW_KINDS else []):
             for first in ALPHA:
                 out.append((kind, pos, first, n))
             out.append((kind, pos, None, None))      # the probes
@@ -68,7 +72,7 @@ def shards(tier, seed):
 
 
 def bounds(tier, seed):
-    return {'alphabet': ALPHA, 'max_len': 3 if tier == 'quick' else 4, 'probes': len(PROBES), 'positions': POSITIONS,
+    return {'alphabet': ALPHA, 'max_len': 3 if tier == 'quick' else 4, 'probes': len(PROBES), 'positions': POSITIONS + ['rawpath (kinds 404 and critical)'],
             'error_kinds': KINDS, 'renderings': ['html', 'json']}
 
 
@@ -151,6 +155,8 @@ class Apps:
     def request(self, kind, pos, payload, as_json):
         base = {'404': '/nf/', '405': '/m/', '400': '/b/', '500': '/c/', 'critical': '/nf/', '400path': '/nf/\xe9', '500data': '/d/'}[kind]
         path = base + (payload if pos == 'path' else 'a')
+        if pos == 'rawpath':
+            path = payload
         qs = ('q=' + payload) if pos == 'query' else 'q=a'
         headers = {'Host': 'h.test'}
         if pos == 'host':
@@ -175,7 +181,7 @@ def expected_status(kind):
 
 def shown(pos, payload):
     """how the payload appears in the URL text (before HTML escaping)"""
-    return quote(payload) if pos == 'path' else payload
+    return quote(payload) if pos in ('path', 'rawpath') else payload
 
 
 def judge(apps, kind, pos, payload, as_json, baseline, core_alphabet=True):
@@ -206,7 +212,7 @@ def judge(apps, kind, pos, payload, as_json, baseline, core_alphabet=True):
         extra = [e for e in ev if e not in baseline[0]][:3]
         return 'markup-injected', f'HTML token sequence differs from the benign page; extra/different tokens {extra!r}'
     want = shown(pos, payload) if kind != 'critical' else payload
-    if kind == 'critical' and pos != 'path':
+    if kind == 'critical' and pos not in ('path', 'rawpath'):
         return None     # the last-resort page shows the path only
     if kind == '400path':
         return None     # which URL the page of an undecodable path shows is C09's business; only markup is judged here
@@ -237,7 +243,7 @@ def work(spec):
         extra = pos
         jobs = []
         for k in KINDS:
-            for p in POSITIONS:
+            for p in POSITIONS + (['rawpath'] if k in RAW_KINDS else []):
                 for s in [''] + list(payloads(1)):
                     for q in range(len(s) + 1):
                         jobs.append((k, p, s[:q] + extra + s[q:]))
